@@ -91,6 +91,11 @@ def run_chain(rnd, sampler_kind, tier):
         kwargs = dict(stepsize=step if not isinstance(step, np.ndarray) else step.copy())
         desc["stepsize"] = step if not isinstance(step, np.ndarray) else step.ravel().tolist()
         userstep = step
+        # "all tuning parameters": with autotuning the scalar part of the step is re-tuned after every proposal (a per-dimension array keeps its pattern);
+        # drawn from a stream of its own so that the chains of earlier seeds stay what they were
+        if random.Random(seed ^ 0x5BD1E995).random() < 0.3:
+            kwargs["autotuning"] = True
+            desc["autotuning"] = True
     else:
         Snap = snapshot_sampler_class(S.HMC)
         s = Snap(seed=1)
@@ -147,9 +152,9 @@ def near(u, rate):
     return abs(u - rate) <= 1e-9 * max(abs(rate), 1e-300)
 
 
-def check_transitions(desc, trans, sampler_kind, userstep, st, findings, reqs, metas, kinetic=None):
+def check_transitions(desc, trans, sampler_kind, userstep, st, findings, reqs, metas, kinetic=None, tuned=None):
     d = len(trans[0]["pre"]["model"]) if trans else 0
-    for t in trans:
+    for ti, t in enumerate(trans):
         pre, post = t["pre"], t["post"]
         draws = t.get("draws", [])
         calls = t.get("calls", [])
@@ -163,6 +168,9 @@ def check_transitions(desc, trans, sampler_kind, userstep, st, findings, reqs, m
                 continue
             px = last_value(calls, "misfit", pre["proposed_model"])
             scale = np.ones((d, 1)) * userstep if not isinstance(userstep, np.ndarray) else userstep
+            if tuned is not None and ti < len(tuned):
+                # autotuned run: the step recorded for proposal i is the one that generated it (C16); a per-dimension array keeps its pattern
+                scale = float(tuned[ti]) * (userstep if isinstance(userstep, np.ndarray) else np.ones((d, 1)))
             # direct oracles on the implementation ----------------------------------------
             expect_prop = pre["model"] + scale * z
             if not np.array_equal(expect_prop, pre["proposed_model"], equal_nan=True):
@@ -243,7 +251,10 @@ def run(tier, seed):
     for i in range(nchains):
         kind = "RWMH" if i % 2 == 0 else "HMC"
         desc, trans, sampler, userstep = run_chain(rnd, kind, tier)
-        check_transitions(desc, trans, kind, userstep, st, findings, reqs, metas, kinetic=getattr(sampler, "_v_kinetic", None))
+        tuned = np.ravel(np.asarray(sampler.stepsizes, dtype=float)) if desc.get("autotuning") and getattr(sampler, "stepsizes", None) is not None else None
+        if desc.get("autotuning"):
+            st.count("RWMH with autotuning" + (" and per-dimension steps" if isinstance(userstep, np.ndarray) else ""))
+        check_transitions(desc, trans, kind, userstep, st, findings, reqs, metas, kinetic=getattr(sampler, "_v_kinetic", None), tuned=tuned)
         if "raised" in desc:
             st.count("sampler raised (see C06/C08)")
             continue
